@@ -117,6 +117,8 @@ func runC18(r *Run) {
 		c18FailedReconnect(r, h)
 		c18ErrorDuringCut(r, h)
 		c18NotificationDuringMonitor(r, h)
+		c18ProbeStall(r, h)
+		c18CutAfterReply(r, h)
 	}
 }
 
